@@ -36,36 +36,42 @@ Section GenEqOct.
     Variable fv : pt -> T.
     Let ev3 : pt -> V3 * T := fun vi => (oct_point origin res vi, fv vi).
 
-    Lemma sel8_add_corner {X} (g : pt -> X) (v : pt) c :
-      sel8 (g (rg_v3i_Vec_Add v (0, 0, 0)%Z)) (g (rg_v3i_Vec_Add v (2, 0, 0)%Z)) (g (rg_v3i_Vec_Add v (2, 2, 0)%Z))
-           (g (rg_v3i_Vec_Add v (0, 2, 0)%Z)) (g (rg_v3i_Vec_Add v (0, 0, 2)%Z)) (g (rg_v3i_Vec_Add v (2, 0, 2)%Z))
-           (g (rg_v3i_Vec_Add v (2, 2, 2)%Z)) (g (rg_v3i_Vec_Add v (0, 2, 2)%Z)) c = g (oct_corner v c).
-    Proof.
-      destruct v as [[x y] z].
-      destruct c as [|[[[|[]|]|[]|]|[[]|[]|]|]];
-        first [ reflexivity | fail 1 "TRANSL_render_processCube: the corner offsets of the level-1 cube are not 2*corner_off in corner order" ].
-    Qed.
-
+    (* level 1.  Whatever way the eight corner positions / values are collected (a literal, a loop over a
+       helper's result, a helper method), the two lists are computed and compared corner by corner. *)
     Lemma processCube_cell_eq (E : (Z * Z * Z) * Z -> bool) (v : Z * Z * Z) :
       rg_render_dcache3_processCube E ev3 v 1 = if E (v, 1%Z) then [] else [RgOut (oct_cell origin res fv v)].
     Proof.
-      unfold rg_render_dcache3_processCube, ev3. destruct (E (v, 1%Z)); cbn [negb]; [reflexivity|].
-      cbn [Z.eqb Pos.eqb]. cbv beta iota zeta. rewrite !app_nil_r.
-      rewrite mcToTriangles_eq. unfold oct_cell. do 2 f_equal.
-      apply mc_to_triangles_ext; intros c;
-        [ exact (sel8_add_corner (oct_point origin res) v c) | exact (sel8_add_corner fv v c) ].
+      unfold rg_render_dcache3_processCube. autounfold with rg_helpers. unfold ev3.
+      destruct (E (v, 1%Z)); cbn [negb];
+        [ z_split; cbv beta iota zeta; trace_norm;
+          first [ reflexivity | fail 1 "TRANSL_render_processCube: an empty cube must produce no event" ] | ].
+      z_split; cbv beta iota zeta; trace_norm. all: split_pair_lets; trace_norm.
+      all: first [ rewrite mcToTriangles_list_eq by (vm_compute; reflexivity)
+            | fail 1 "TRANSL_render_processCube: the level-1 cube does not output mcToTriangles of eight corners" ].
+      all: unfold oct_cell; first [ do 2 f_equal | fail 1 "TRANSL_render_processCube: the level-1 cube does not make exactly one output" ].
+      all: destruct v as [[x y] z].
+      all: apply mc_to_triangles_ext; intros c;
+        (destruct c as [|[[[|[]|]|[]|]|[[]|[]|]|]];
+         first [ reflexivity | fail 1 "TRANSL_render_processCube: the corners of the level-1 cube are not v + 2*corner_off in corner order (positions / values of dc.evaluate)" ]).
     Qed.
 
     Lemma processCube_node_eq (E : (Z * Z * Z) * Z -> bool) (ev : pt -> V3 * T) (v : Z * Z * Z) (m : nat) :
       rg_render_dcache3_processCube E ev v (Z.of_nat (S (S m))) =
       if E (v, Z.of_nat (S (S m))) then [] else map (fun c => RgCall (c, Z.of_nat (S m))) (oct_children m v).
     Proof.
-      unfold rg_render_dcache3_processCube. destruct (E (v, Z.of_nat (S (S m)))); cbn [negb]; [reflexivity|].
-      rewrite of_nat_SS_neq_1. cbv zeta.
-      replace (Z.sub (Z.of_nat (S (S m))) 1) with (Z.of_nat (S m)) by lia. rewrite shiftl_pow2, !app_nil_r.
-      destruct v as [[x y] z]. unfold oct_children, corners8, rg_v3i_Vec_Add. cbn [map corner_off scalep addp fst snd].
-      rewrite ?Z.mul_1_r, ?Z.mul_0_r.
-      first [ reflexivity | fail 1 "TRANSL_render_processCube: the eight recursive calls are not the children (s*corner_off, level n-1) in corner order" ].
+      unfold rg_render_dcache3_processCube. autounfold with rg_helpers.
+      destruct (E (v, Z.of_nat (S (S m)))); cbn [negb];
+        [ z_split; cbv beta zeta; trace_norm;
+          first [ reflexivity | fail 1 "TRANSL_render_processCube: an empty cube must produce no event" ] | ].
+      z_split; cbv beta zeta; trace_norm.
+      all: replace (Z.sub (Z.of_nat (S (S m))) 1) with (Z.of_nat (S m)) by lia; rewrite ?shiftl_pow2; trace_norm.
+      all: destruct v as [[x y] z]; unfold oct_children, corners8, rg_v3i_Vec_Add. cbn [map corner_off scalep addp fst snd app flat_map].
+      all: first [ repeat match goal with
+                     | |- _ :: _ = _ :: _ => f_equal
+                     | |- RgCall _ = RgCall _ => f_equal
+                     | |- (_, _) = (_, _) => f_equal
+                     end; lia
+            | fail 1 "TRANSL_render_processCube: the eight recursive calls are not the children (s*corner_off, level n-1) in corner order" ].
     Qed.
 
     (* the model recursion is the interpretation of the generated step *)
@@ -94,35 +100,40 @@ Section GenEqOct.
     Variable fv : pt2 -> T.
     Let ev2 : pt2 -> V2 * T := fun vi => (quad_point origin res vi, fv vi).
 
-    Lemma sel4_add_corner {X} (g : pt2 -> X) (v : pt2) c :
-      sel4 (g (rg_v2i_Vec_Add v (0, 0)%Z)) (g (rg_v2i_Vec_Add v (2, 0)%Z)) (g (rg_v2i_Vec_Add v (2, 2)%Z))
-           (g (rg_v2i_Vec_Add v (0, 2)%Z)) c = g (quad_corner v c).
-    Proof.
-      destruct v as [x y].
-      destruct c as [|[[]|[]|]];
-        first [ reflexivity | fail 1 "TRANSL_render_processSquare: the corner offsets of the level-1 square are not 2*sq_corner_off in corner order" ].
-    Qed.
-
     Lemma processSquare_cell_eq (E : (Z * Z) * Z -> bool) (v : Z * Z) :
       rg_render_dcache2_processSquare E ev2 v 1 = if E (v, 1%Z) then [] else [RgOut (quad_cell origin res fv v)].
     Proof.
-      unfold rg_render_dcache2_processSquare, ev2. destruct (E (v, 1%Z)); cbn [negb]; [reflexivity|].
-      cbn [Z.eqb Pos.eqb]. cbv beta iota zeta. rewrite !app_nil_r.
-      rewrite msToLines_eq. unfold quad_cell. do 2 f_equal.
-      apply ms_to_lines_ext; intros c;
-        [ exact (sel4_add_corner (quad_point origin res) v c) | exact (sel4_add_corner fv v c) ].
+      unfold rg_render_dcache2_processSquare. autounfold with rg_helpers. unfold ev2.
+      destruct (E (v, 1%Z)); cbn [negb];
+        [ z_split; cbv beta iota zeta; trace_norm;
+          first [ reflexivity | fail 1 "TRANSL_render_processSquare: an empty square must produce no event" ] | ].
+      z_split; cbv beta iota zeta; trace_norm. all: split_pair_lets; trace_norm.
+      all: first [ rewrite msToLines_list_eq by (vm_compute; reflexivity)
+            | fail 1 "TRANSL_render_processSquare: the level-1 square does not output msToLines of four corners" ].
+      all: unfold quad_cell; first [ do 2 f_equal | fail 1 "TRANSL_render_processSquare: the level-1 square does not make exactly one output" ].
+      all: destruct v as [x y].
+      all: apply ms_to_lines_ext; intros c;
+        (destruct c as [|[[]|[]|]];
+         first [ reflexivity | fail 1 "TRANSL_render_processSquare: the corners of the level-1 square are not v + 2*sq_corner_off in corner order (positions / values of dc.evaluate)" ]).
     Qed.
 
     Lemma processSquare_node_eq (E : (Z * Z) * Z -> bool) (ev : pt2 -> V2 * T) (v : Z * Z) (m : nat) :
       rg_render_dcache2_processSquare E ev v (Z.of_nat (S (S m))) =
       if E (v, Z.of_nat (S (S m))) then [] else map (fun c => RgCall (c, Z.of_nat (S m))) (quad_children m v).
     Proof.
-      unfold rg_render_dcache2_processSquare. destruct (E (v, Z.of_nat (S (S m)))); cbn [negb]; [reflexivity|].
-      rewrite of_nat_SS_neq_1. cbv zeta.
-      replace (Z.sub (Z.of_nat (S (S m))) 1) with (Z.of_nat (S m)) by lia. rewrite shiftl_pow2, !app_nil_r.
-      destruct v as [x y]. unfold quad_children, corners4, rg_v2i_Vec_Add, addp2, scalep2. cbn [map sq_corner_off fst snd].
-      rewrite ?Z.mul_1_r, ?Z.mul_0_r.
-      first [ reflexivity | fail 1 "TRANSL_render_processSquare: the four recursive calls are not the children (s*sq_corner_off, level n-1) in corner order" ].
+      unfold rg_render_dcache2_processSquare. autounfold with rg_helpers.
+      destruct (E (v, Z.of_nat (S (S m)))); cbn [negb];
+        [ z_split; cbv beta zeta; trace_norm;
+          first [ reflexivity | fail 1 "TRANSL_render_processSquare: an empty square must produce no event" ] | ].
+      z_split; cbv beta zeta; trace_norm.
+      all: replace (Z.sub (Z.of_nat (S (S m))) 1) with (Z.of_nat (S m)) by lia; rewrite ?shiftl_pow2; trace_norm.
+      all: destruct v as [x y]; unfold quad_children, corners4, rg_v2i_Vec_Add, addp2, scalep2. cbn [map sq_corner_off fst snd app flat_map].
+      first [ repeat match goal with
+                     | |- _ :: _ = _ :: _ => f_equal
+                     | |- RgCall _ = RgCall _ => f_equal
+                     | |- (_, _) = (_, _) => f_equal
+                     end; lia
+            | fail 1 "TRANSL_render_processSquare: the four recursive calls are not the children (s*sq_corner_off, level n-1) in corner order" ].
     Qed.
 
     Theorem quadtree_step (n m : nat) (v : pt2) : (S m < n)%nat ->
